@@ -5,7 +5,7 @@ import json, random, sys
 class B:
     def __init__(self): self.nodes=[]
     def add(self, **d):
-        if d.get('ty') in ('func','funcdecl'): d.setdefault('gen',0)
+        if d.get('ty') in ('func','funcdecl'): d.setdefault('gen',0); d.setdefault('defs',[0]*len(d.get('params',[])))
         self.nodes.append(d); return len(self.nodes)
 def cs(s): return [ord(c) for c in s]
 
@@ -31,7 +31,8 @@ class Gen:
         if vars_: choices+=['var']*4
         if d>0:
             choices+=['bin']*4+['logical','unary','cond']
-            if any(k!='const' for n,k in sc['names']): choices+=['assign','update']
+            if any(k!='const' for n,k in sc['names']): choices+=['assign','update','lassignv']
+            if getattr(self,'objects',False) and vars_: choices+=['lassignm']
             if sc['funcs']: choices+=['call']*2
             if d>1: choices+=['func']
         if getattr(self,'orders',False) and d>0: choices+=['order']*2
@@ -92,6 +93,11 @@ class Gen:
         if c=='assign':
             n=r.choice([n for n,k in sc['names'] if k!='const'] if r.random()<0.95 else vars_)
             return b.add(ty='assign', name=n, a=self.expr(sc,d-1))
+        if c=='lassignv':
+            n=r.choice([n for n,k in sc['names'] if k!='const'])
+            return b.add(ty='lassignv', op=r.choice(['||=','&&=','??=','??=']), name=n, a=self.expr(sc,d-1))
+        if c=='lassignm':
+            return b.add(ty='lassignm', op=r.choice(['||=','&&=','??=','??=']), a=b.add(ty='var', name=r.choice(vars_)), key=cs(r.choice(['a','b','k1','0','1'])), c=self.expr(sc,d-1))
         if c=='update':
             n=r.choice([n for n,k in sc['names'] if k!='const'])
             return b.add(ty='update', op=r.choice(['++','--']), prefix=r.choice([0,1]), name=n)
@@ -107,10 +113,21 @@ class Gen:
             # immediately-invoked closure or function value
             params=[self.fresh('p') for _ in range(r.choice([0,1,2]))]
             body=self.funcbody(sc, params, d-1)
-            f=b.add(ty='func', params=params, body=body, name='', arrow=r.choice([0,1]))
+            f=b.add(ty='func', params=params, body=body, name='', arrow=r.choice([0,1]), defs=self.defaults(sc, params))
             if r.random()<0.7:
                 return b.add(ty='call', f=f, args=[self.expr(sc,d-1) for _ in params])
             return f
+    def defaults(self, sc, params):
+        """default initialisers: simple expressions over outer names and EARLIER parameters"""
+        out=[]
+        for i,p in enumerate(params):
+            if getattr(self,'param_defaults',True) and self.r.random()<0.3:
+                inner=dict(sc); inner=self.child(sc); inner['names']=[(n,k) for n,k in sc['names'] if n not in params]+[(q,'let') for q in params[:i]]
+                inner['funcs']=[]; inner['gvars']=[]; inner['ingen']=False
+                save=(getattr(self,'orders',False)); self.orders=False
+                out.append(self.expr(inner,1)); self.orders=save
+            else: out.append(0)
+        return out
     def funcbody(self, sc, params, d):
         inner=dict(names=[(n,k) for n,k in sc['names'] if n not in params]+[(p,'let') for p in params], own=list(params), nested=True, funcs=list(sc['funcs']), inloop=False, labels=[], infunc=True, ingen=getattr(self,'_next_is_gen',False), gvars=list(sc.get('gvars',[])), gfuncs=list(sc.get('gfuncs',[])))
         self._next_is_gen=False
@@ -125,7 +142,7 @@ class Gen:
             name=self.fresh('f'); params=[self.fresh('p') for _ in range(self.r.choice([0,1]))]
             body=self.funcbody(sc, params, d-1)
             sc['funcs'].append((name,len(params)))
-            late.append(self.b.add(ty='funcdecl', name=name, params=params, body=body))
+            late.append(self.b.add(ty='funcdecl', name=name, params=params, body=body, defs=self.defaults(sc, params)))
         for _ in range(n):
             s=self.stmt(sc,d)
             if s is None: continue
@@ -231,7 +248,7 @@ class Gen:
             if sh and params: params[0]=sh
             body=self.funcbody(sc, params, d-1)
             sc['funcs'].append((name,len(params)))
-            return b.add(ty='funcdecl', name=name, params=params, body=body)
+            return b.add(ty='funcdecl', name=name, params=params, body=body, defs=self.defaults(sc, params))
         if c=='labeled':
             l=self.fresh('L')
             inner=self.child(sc, labels=sc['labels']+[l])
@@ -301,6 +318,8 @@ def pr(P, n, ind=0):
         return d['name']
     if t=='typeofvar': return f"(typeof {d['name']})"
     if t=='assign': return f"({d['name']} = {E(d['a'])})"
+    if t=='lassignv': return f"({d['name']} {d['op']} {E(d['a'])})"
+    if t=='lassignm': return f"(({E(d['a'])})[{json.dumps(''.join(chr(c) for c in d['key']))}] {d['op']} {E(d['c'])})"
     if t=='bin':
         r=f"({E(d['a'])} {d['op']} {E(d['b'])})"
         if DECO and DECO.random()<0.1: use('as'); return f"({r} as {ty()})"
@@ -329,7 +348,11 @@ def pr(P, n, ind=0):
                 if DECO.random()<0.2: use('optional_param'); return p+'?: '+ty()
                 use('ann:param'); return p+': '+ty()
             return p
-        ps=', '.join(par(p) for p in d['params'])
+        dfs=d.get('defs') or [0]*len(d['params'])
+        def pard(p,i):      # a parameter with an initialiser cannot also carry `?`
+            if dfs[i]: return (p+': '+ty() if (DECO and DECO.random()<0.4) else p)+' = '+E(dfs[i])
+            return par(p)
+        ps=', '.join(pard(p,i) for i,p in enumerate(d['params']))
         a='async ' if ASYNC else ''
         rt=''
         if DECO and DECO.random()<0.4: use('ann:return_arrow' if d['arrow'] else 'ann:return'); rt=': '+DECO.choice(['any','unknown','void | any'])
@@ -380,7 +403,8 @@ def pr(P, n, ind=0):
         def par(p):
             if DECO and DECO.random()<0.6: use('ann:param'); return p+': '+ty()
             return p
-        ps=', '.join(par(p) for p in d['params'])
+        dfs=d.get('defs') or [0]*len(d['params'])
+        ps=', '.join(((par(p)+' = '+E(dfs[i])) if dfs[i] else par(p)) for i,p in enumerate(d['params']))
         gen=DECO.choice(['','<T>','<K extends keyof any, V = unknown>']) if DECO else ''
         if gen: use('generic_fn')
         rt=''
